@@ -24,7 +24,7 @@ import CRProofs.XsdEnumA2
 import CRProofs.XsdEnumA3
 import CRProofs.XsdEnumA4
 import CRProofs.XsdEnumB
-import CRProofs.XsdDocE
+import CRProofs.XsdDocF
 import Gen.XsdScenario
 import Gen.PyEnums
 
@@ -820,12 +820,16 @@ theorem C03_keys_ok (root : Xml) (ids : List Int)
 theorem C03_doc_key_values (d : DocD) :
     keyValues { schema with keyPaths := schema.keyPaths.eraseDups } (docNode d) = (docIds d).map some := doc_keyValues d
 
+/-- the `@ref` values below the root are the written forms of `docRefs d`: predecessor / successor / adjacency / stop-line /
+    sign / light references of the lanelets, the lanelet references of the intersections, and the lanelet positions of goal
+    states -/
+theorem C03_doc_refs (d : DocD) : refsOfList "ref" (docNode d).kids = (docRefs d).map istr := doc_refs d
+
 /-- the writer model: inputs are the data of a scenario + planning-problem set; expressible means schema-expressible
-    (`DocOk`), unique ids, and every written reference resolves to one of the ids -/
+    (`DocOk`), pairwise different ids, and every reference points at one of the ids -/
 def writerModel : WriterModel where
   Input := DocD
-  Expressible d := DocOk d ∧ (docIds d).Nodup ∧
-    ∀ v ∈ refsOfList "ref" (docNode d).kids, ∃ i ∈ docIds d, intValue v.toList = some i
+  Expressible d := DocOk d ∧ (docIds d).Nodup ∧ ∀ r ∈ docRefs d, r ∈ docIds d
   encode := docNode
 
 /-- **valid_doc.** `C03_valid_doc_full` for the complete writer model: every schema-expressible scenario with unique ids and
@@ -833,6 +837,6 @@ def writerModel : WriterModel where
     decimal numbers, enumeration values, required elements, attributes, xs:key and xs:keyref. -/
 theorem C03_valid_doc : C03_valid_doc_full writerModel := by
   intro d h
-  exact valid_doc d h.1 h.2.1 h.2.2
+  exact valid_doc_data d h.1 h.2.1 h.2.2
 
 end CR.C03
